@@ -467,6 +467,17 @@ def d6(ctx, prog):
         elif isinstance(n, ast.IfExp) and triangular([n.body, n.orelse]):
             flags |= astutil.self_attrs_read(astutil.expand_locals(n.test, ldefs))
     key = f'{ci.key}::pair-set switch'
+    if not flags:
+        # another shape of the two enumerations (span tables, helper plans): the switch is the attribute tested in __call__ that
+        # _set_frames derives from its second-frame parameter (and that is not the stored frame itself)
+        p2_ = setf.params[2] if len(setf.params) > 2 else None
+        derived = {self_attr(s_.targets[0]) for s_ in ast.walk(setf.node) if isinstance(s_, ast.Assign) and len(s_.targets) == 1 and self_attr(s_.targets[0])
+                   and p2_ is not None and any(isinstance(x_, ast.Name) and x_.id == p2_ for x_ in ast.walk(s_.value))} - {'frame_1', 'frame_2'}
+        tested = set()
+        for n in ast.walk(call.node):
+            if isinstance(n, (ast.If, ast.IfExp)):
+                tested |= astutil.self_attrs_read(astutil.expand_locals(n.test, ldefs))
+        flags = derived & tested
     if len(flags) != 1:
         ctx.undecided('C18-D6', key, f'the switch between triangular and full pair enumeration was not identified (candidates {sorted(flags)})', call.where())
         return 0
@@ -598,8 +609,10 @@ def d7(ctx, prog):
             continue
         env = operand_env(prog, f, {})
         lab = lambda e: operand_label(prog, f, e, env)     # noqa: E731
+        # a call site inside a shared helper method stands for each place the helper is called from
+        weight = max(1, sum(1 for g in prog.funcs_in(HO) for c_ in ast.walk(g.node) if isinstance(c_, ast.Call) and norm(c_.func) == f'self.{f.name}'))
         for c in calls:
-            n += 1
+            n += weight
             key = f'{f.key}::{norm(c)[:70]}'
             if len(c.args) != 2 or c.keywords:
                 ctx.undecided('C18-D7', key, 'operation not called with two positional operands', f.where(c))
